@@ -49,7 +49,7 @@ for _n, _ps in {
     "ruleDDMM": "C05 C04 C02", "ruleMMDD": "C05 C04 C02", "ruleDOYYear": "C05 C02", "ruleDDMMYYYY": "C05 C02",
     "ruleDOWDate": "C05", "ruleDateDOW": "C05", "ruleDateTOD": "C20 C05", "ruleTODDate": "C20 C05",
     "ruleDatePOD": "C20", "rulePODDate": "C20", "ruleAbsorbOnTime": "C20", "ruleAbsorbFromInterval": "C07",
-    "ruleHHMM": "C06", "ruleHHMMmilitary": "C05 C06", "ruleHHOClock": "C06", "ruleNamedHour": "C06",
+    "ruleHHMM": "C06 C11", "ruleHHMMmilitary": "C05 C06 C11", "ruleHHOClock": "C06", "ruleNamedHour": "C06",
     "ruleMidnight": "C06", "ruleQuarterBeforeHH": "C06", "ruleHalfBeforeHH": "C06", "ruleQuarterAfterHH": "C06",
     "ruleHalfAfterHH": "C06", "ruleTODPOD": "C06", "rulePODTOD": "C06",
     "ruleBeforeTime": "C07", "ruleAfterTime": "C07", "ruleDateDate": "C07", "ruleDOMDate": "C07",
@@ -67,9 +67,12 @@ def build_units(world):
     units = collections.OrderedDict()
     for t in R.discover(world):
         u = RuleUnit(t)
+        if u.name in units:        # a second @rule definition with the same function name (C19 reports it)
+            u.name = "%s@line%d" % (u.name, t.func.node.lineno)
+            t.variant = (t.variant + "," if t.variant else "") + "line%d" % t.func.node.lineno
         # rules producing Interval values serve C07 through the auxiliary invariant
         units[u.name] = u
-    for mod in ("contracts.extra",):
+    for mod in ("contracts.extra", "contracts.c19"):
         try:
             m = __import__(mod, fromlist=["units"])
         except ImportError:
